@@ -267,6 +267,21 @@ def cycleMsgOk (cfg : Cfg) : List Node → Bool
   | [] => false
   | n :: rest => isConnNode n && !rest.isEmpty && (rest.getLast? == some n) && linkedChain (edges cfg) n rest
 
+/-! ## a factory that fails in `buildComponents`
+
+After `createNodes`, `createEdges` and `topo.Sort` succeeded, `buildComponents` calls the factories; the first factory
+error is returned by `Build` (components created before it stay created, none is started). -/
+
+inductive BuildErrW
+  | build (e : BuildErr)   -- the configuration is rejected (no factory was called)
+  | create                 -- a factory returned an error
+deriving DecidableEq, Repr
+
+def buildWith (cfg : Cfg) (failCreate : Node → Bool) : Option BuildErrW :=
+  match build cfg with
+  | some e => some (.build e)
+  | none => if (nodes cfg).any (fun n => n.isComp && failCreate n) then some .create else none
+
 /-! ## data flow through the built consumers
 
 Every consumer hands the payload to each of its next consumers once (receiver: `fanoutconsumer` over its
